@@ -146,6 +146,19 @@ def build(relativize, history):
     z = new_zone(relativize)
     content = {ORIGIN: {"SOA", "NS"}}
     for txnops in history:
+        if txnops and tuple(txnops[0][0])[0] == "reload":
+            # a replacement transaction (what a zone reload / AXFR does): the new content
+            # starts from nothing, and so must the derived state
+            recs = [tuple(r) for r in tuple(txnops[0][0])[1]]
+            with z.writer(True) as txn:
+                txn.add(spelled("@", "rel"), 10, RD["SOA"])
+                txn.add(spelled("@", "rel"), 10, RD["NS"])
+                for key, t in recs:
+                    txn.add(spelled(key, txnops[0][1]), 10, RD[t])
+            content = {ORIGIN: {"SOA", "NS"}}
+            for key, t in recs:
+                content.setdefault(absname(key), set()).add(t)
+            continue
         with z.writer() as txn:
             for op, form in txnops:
                 apply_op(txn, tuple(op), form)
@@ -315,6 +328,8 @@ def expand(state, col):
     rel, history, pairs = state
     ops = single_ops()
     txns = [((op, "rel"),) for op in ops] + [((op, "abs"),) for op in ops[::3]]
+    for recs in ((), (("d", "NS"),), (("b.a", "A"), ("a", "A")), (("c.b.a", "NS"), ("x.d", "A")), (("a", "NS"), ("b.a", "NS"))):
+        txns.append(((("reload", recs), "rel"),))
     if pairs:
         txns += [((a, "rel"), (b, "rel")) for a in ops for b in ops if a[1] != b[1] or a[0] != b[0]]
     for t in txns:
